@@ -277,6 +277,16 @@ PROPS["C06"]["level_text"] = ("Deductive (unbounded): ngrams_of('exact') returns
     "sequence[g:g+n]), every slice in range for both behaviours; sum_coo_entries returns a non-empty list of strictly increasing (row, col) coordinates. " + PROPS["C06"]["level_text"].replace("Bounded only in this round:", "Bounded:"))
 _SITE_OT = "@site/pynndescent/optimal_transport.py::"
 PROPS["C07"]["functions"] = [LOT + "get_transport_plan", _SITE_OT + "arc_id", _SITE_OT + "initialize_cost", _SITE_OT + "initialize_supply"]
+PROPS["C07"]["assumptions"] = list(PROPS["C07"].get("assumptions", [])) + [
+    "pynndescent.optimal_transport.network_simplex_core trusted (returns a feasible optimal flow for the supply / cost vectors it is given): decided by the bounded driver against HiGHS only",
+    "pynndescent.optimal_transport.allocate_graph_structures trusted (graph.n_arcs == n * m, graph.n_nodes == n + m, use_arc_mixing as passed, arrays long enough): stated, not verified",
+    "numba locals typing of initialize_cost (i, j: uint16) not modelled: loop counters are mathematical integers (wraps beyond 65535 support points)",
+    "installed dependency source is read from /venv's site-packages (pynndescent/optimal_transport.py); that the running interpreter imports that file is assumed",
+]
+PROPS["C17"]["assumptions"] = list(PROPS["C17"].get("assumptions", [])) + [
+    "column_kl_divergence_exact_prior: functional contract over the reals with np.log uninterpreted (congruence only); float rounding, NaN/inf and Gibbs' inequality (non-negativity) are not covered by it",
+    "column total taken as the sum of the stored values (count_data.sum()); equality with the dense column's sum is not separately proved",
+]
 PROPS["C07"]["structural"] = [st("linear_optimal_transport.py", "transport_plan", "posarg", callee="allocate_graph_structures", index=2, value="False", keyword="use_arc_mixing")]
 PROPS["C07"]["level_text"] = ("Deductive (unbounded): get_transport_plan reads cell (i, j) of the plan from flow[n_arcs - (i*m + j) - 1], an in-range, injective index; the "
     "installed pynndescent source is under contract too (read from /venv's site-packages on every run): arc_id returns n_arcs - arc - 1 without arc mixing, initialize_cost writes "
